@@ -146,7 +146,11 @@ pub fn abstract_tok(to: &str, server_name: &str, tok: &Tok) -> Vec<Value> {
             names
                 .split(' ')
                 .filter(|s| !s.is_empty())
-                .map(|n| m(vec![sym.clone(), ch.clone(), n.to_string()]))
+                .map(|n| {
+                    // the channel-type symbol (= / @) is not compared
+                    let _ = &sym;
+                    m(vec![ch.clone(), n.to_string()])
+                })
                 .collect()
         }
         "319" => {
